@@ -166,8 +166,10 @@ func repeatString(lhs *CandidateNode, rhs *CandidateNode) (*CandidateNode, error
 func mergeObjects(d *dataTreeNavigator, context Context, lhs *CandidateNode, rhs *CandidateNode, preferences multiplyPreferences) (*CandidateNode, error) {
 	var results = list.New()
 
-	// only need to recurse the array if we are doing a deep merge
-	prefs := recursiveDescentPreferences{RecurseArray: preferences.DeepMergeArrays,
+	// only need to recurse the array if we are doing a deep merge; an appended
+	// array (+) is already complete, assigning its items by position as well
+	// would overwrite what it was appended to
+	prefs := recursiveDescentPreferences{RecurseArray: preferences.DeepMergeArrays && !preferences.AppendArrays,
 		TraversePreferences: traversePreferences{DontFollowAlias: true, IncludeMapKeys: true}}
 	log.Debugf("merge - preferences.DeepMergeArrays %v", preferences.DeepMergeArrays)
 	log.Debugf("merge - preferences.AppendArrays %v", preferences.AppendArrays)
